@@ -39,8 +39,8 @@ CLAIMS = {
     "C15": {
         "text": "For every path through the capability record loop at once: the cursor advances by exactly 3+size on each back edge "
                 "(affine forms over value-flow terms), every read stays inside its record, the only loop-carried values are the cursor "
-                "and the write-only result dict, merge is an in-order dict.update and get_capabilities pages/merges/updates in the "
-                "right order. Together: parse(list) = fold of parse(record), independent of the split point.",
+                "and write-only accumulators (the result dict), merge is an in-order dict.update and get_capabilities pages/merges/updates in the "
+                "right order; the dict a response fills is not shared with class-level or module-level state. Together: parse(list) = fold of parse(record), independent of the split point.",
         "note": TRUST + "dict.update semantics",
         "technique": "cursor-advance / loop-carried-state analysis on value-flow terms (static analysis)",
     },
@@ -103,7 +103,7 @@ CLAIMS = {
                 "field a source over its full raw domain, don't-care bits free, symbolic length >= 16); in every guard region each of the 19 "
                 "attributes equals the reported field, optional fields are None exactly where the length does not cover them; "
                 "_parse_temperature's decision tree is checked leaf by leaf in a linear-form domain with the trunc relation (None iff "
-                "0xFF, within one degree, exact tenths in Celsius); _update_state and the getters map each attribute unchanged.",
+                "0xFF, within one degree, exact tenths in Celsius); _update_state stores every attribute on every way through its state branch and, with the getters, maps each attribute unchanged.",
         "note": TRUST + "vendor layout rows (Lua lines cited); exact rationals stand for floats of halves/tenths",
         "technique": "abstract interpretation in a bit-field/linear-form domain with trace partitioning + def-use mapping (static analysis)",
     },
@@ -112,8 +112,8 @@ CLAIMS = {
                 "sequence of read outcomes (ok / timeout / protocol error / cancellation): transmissions ∈ [1,R], no retransmission after "
                 "a response, R timeouts ⇒ TimeoutError after exactly R transmissions, every failure exit disconnects first and leaves as "
                 "timeout/protocol error; plus must-pass-through reconnect in send, _disconnect/_connect/_alive/alive/write facts from "
-                "value-flow terms (no self._protocol.<x> where the path condition, short-circuit operands or every caller's guard leave it possibly None) and the may-raise analysis with environment raisers for connect failures and Device._send_command; the "
-                "reassembly premises of C04 (every response that arrives is delivered) are re-run as premises.",
+                "value-flow terms (the wait on the receive queue has a timeout that no handler below the retry loop swallows; no self._protocol.<x> where the path condition, short-circuit operands or every caller's guard leave it possibly None) and the may-raise analysis with environment raisers for connect failures and Device._send_command; the "
+                "reassembly premises of C04 (every response that arrives is delivered) and the session discipline of C07 (re-authentication on V3) are re-run as premises.",
         "note": TRUST + "timing relative to the 2 s read timeout and success of the following exchange on a real socket are not decided",
         "technique": "conditional-constant exploration of retry-loop automata + must-pass-through + may-raise effects (static analysis)",
     },
@@ -138,14 +138,14 @@ CLAIMS = {
         "text": "Each reported identity field is traced through value-flow terms to the byte range / byte order it is read from (id LE at 20, "
                 "body [40:-16], port [4:6] LE unsigned, sn [8:40], name [41:41+n], type from the name) and compared with the reply format; ip comes "
                 "from the datagram source and version from the detected version; Device stores and returns every field unchanged; version "
-                "and class dispatch tables; DISCOVERY_MSG folds to a self-consistent signed 72-byte packet sent to 6445/20086; the per-host "
+                "and class dispatch tables; DISCOVERY_MSG folds to a self-consistent signed 72-byte packet sent to 6445/20086; discover() listens for the whole timeout on every path; the per-host "
                 "containment obligations of C18 are re-run as premises (another host's reply cannot abort the run).",
         "note": TRUST + "the reply format table (matches the two captured replies pinned by the tests)",
         "technique": "value-flow range/provenance analysis + constant folding (static analysis)",
     },
     "C19": {
         "text": "Value-flow terms show the signature is the last mutation of the posted body and is sha256(path ‖ sorted url-encoded items ‖ "
-                "APP_KEY); bodies carry the stored sessionId and stamp; the login password derivation; get_token returns token/key of the "
+                "APP_KEY); bodies carry the stored sessionId and stamp; the login password derivation of both clouds (SmartHome: salted with the login key of the selected server); get_token returns token/key of the "
                 "very element compared equal to the requested udpid, else CloudError; _post_request explored for budgets 1..3 with the HTTP "
                 "client as oracle (attempts ≤ R, every exceptional exit a CloudError); both byte orders tried with the credentials fetched "
                 "for that order's udpid; the cloud client is cached for reuse only after login() completed.",
